@@ -21,6 +21,7 @@ EXPLANATION = (
     "replaces the node at `key` with a disjunction that contains the old children and the new component; G7 negate maps TRUE<->FALSE and x -> -x. "
     "The Boolean meaning of returned keys for arbitrary call sequences is not decided."
     " Added after seed round 6: G5's scenario table is evaluated on concrete children (11, 12), component in {None, TRUE, old, new}, max_arity in {0, 2, 5}; the replacement node must cover exactly the old children plus the component."
+    " Added after seed round 7: G8 add_atom shares atoms by identifier for both values of keep_all and never folds the neutral weight to a constant."
 )
 TECHNIQUE = "static analysis: path-wise decision-table extraction, return-of-procedure rule over the class hierarchy"
 LEVEL_TEXT = EXPLANATION
